@@ -446,6 +446,7 @@ def assemble(unit, index, expanded_name='expanded.rs', probe=None, lenient=False
             text = rw.rule_r3_unchecked(text, fired, unit.slice_recv, unit.slice_recv_ref)
             text = rw.apply_substs(text, fs.fsubst, fired)
             text = rw.rule_r6_for_ref(text, fired)   # a declared substitution may have produced `for &x in slice`
+            text = rw.rule_r6_idioms(text, fired)    # ... or an iterator idiom (chunks rewritten to an indexed loop)
         except rw.Unsupported as e:
             raise ExtractError('%s: unsupported construct: %s' % (fs.display(), e))
         except ValueError as e:
